@@ -67,3 +67,28 @@ Definition probe_case (defer : bool) (ns_at_def : option N) (installed : option 
   | None => None
   | Some f => Some (call f (match installed with Some e => from_namespace e ns_at_def | None => ns_at_def end) tt)
   end.
+
+(* ModuleLoader.load's lookup (after the repair recorded in known_findings.d/C31.json): the module of
+   the name as written, else the module of its normal form "/".join(split_template_path(name));
+   and the lookup of the loaders templates are compiled from (FileSystemLoader / PackageLoader),
+   which normalise first.  [normal] = None: split_template_path raises TemplateNotFound. *)
+Definition str_eqb (a b : str) : bool := if list_eq_dec N.eq_dec a b then true else false.
+Section Load.
+  Variable sha1_hex : str -> str.
+  Variable normal : str -> option str.
+  Definition has_module (archive : list str) (name : str) : bool :=
+    existsb (str_eqb (template_key sha1_hex name)) archive.
+  Definition module_load (archive : list str) (name : str) : option str :=
+    if has_module archive name then Some name
+    else match normal name with
+         | None => None
+         | Some n => if str_eqb n name then None else if has_module archive n then Some n else None
+         end.
+  Definition source_load (names : list str) (name : str) : option str :=
+    match normal name with
+    | None => None
+    | Some n => if existsb (str_eqb n) names then Some n else None
+    end.
+  (* compile_templates: one module per listed template *)
+  Definition compile_archive (names : list str) : list str := map (template_key sha1_hex) names.
+End Load.
